@@ -389,6 +389,15 @@ func genScenarios(run *mon.Run) []scen {
 
 // fixKinds keeps the scenario meaningful: a cache waiter needs an owner before it.
 func fixKinds(sc *scen, _ *rand.Rand) {
+	// at most BlockingPoolSize (3) calls may hold pool connections, or the extra one just queues for a connection
+	pooled := 0
+	for i, k := range sc.kinds {
+		if k == "Blpop" || k == "Dedicated" || k == "DoStream" {
+			if pooled++; pooled > 3 {
+				sc.kinds[i] = "Do"
+			}
+		}
+	}
 	hasOwner := false
 	for i, k := range sc.kinds {
 		if k == "DoCache" {
